@@ -1048,6 +1048,14 @@ ATTR_MUTS = [
     ("external Ext:", "  ", '[static_requirements: "x"]', "attr:static_requirements-string"),
     ("external Ext:", "  ", '[addressable_unit_size: true]', "attr:addressable_unit_size-bool"),
     ("external Ext:", "  ", '[addressable_unit_size: "8"]', "attr:addressable_unit_size-string"),
+    # constancy: values of the right type that mention a field or a builtin
+    ("external Ext:", "  ", '[addressable_unit_size: $static_size_in_bits]', "attr:addressable_unit_size-nonconstant"),
+    ("external Ext:", "  ", '[addressable_unit_size: $static_size_in_bits + 8]', "attr:addressable_unit_size-nonconstant"),
+    ("external Ext:", "  ", '[is_integer: $is_statically_sized]', "attr:is_integer-nonconstant"),
+    ("external Ext:", "  ", '[is_integer: $static_size_in_bits == 8]', "attr:is_integer-nonconstant"),
+    ("struct Fx:", "  ", '[fixed_size_in_bits: z + 14]', "attr:fixed_size-nonconstant"),
+    ("struct Fx:", "  ", '[fixed_size_in_bits: $max(16, z)]', "attr:fixed_size-nonconstant"),
+    ("struct Fx:", "  ", '[fixed_size_in_bits: 8 * (z - z + 2)]', "attr:fixed_size-nonconstant"),
 ]
 
 
